@@ -75,7 +75,11 @@ func hasDotDotComp(p string) bool {
 func runC13(e *Env) {
 	e.R.Rule = "paths enumerated exhaustively over the segment alphabet {'', '.', '..', 'a', 'b', '..a', 'a..'} " +
 		"(abs/rel, with/without trailing '/') plus seeded random Unicode/byte segments; a case is " +
-		"(operation, layout, path); non-trivial when the path has >= 2 segments or is '', '.' or '..'; distinct by that triple"
+		"(operation, layout, path); non-trivial when the path has >= 2 segments or is '', '.' or '..'; distinct by that triple; " +
+		"two-path operations (every method of *VirtualOS with two path arguments, found by reflection, and the builtins os.rename/os.symlink/cp) " +
+		"over nested, sibling and seeded mount layouts x working directories at and inside every mount x ordered PAIRS of a structured path pool " +
+		"(at/inside/above/beside every mount point, absolute and relative to the working directory, clean and unclean): a case is " +
+		"(layout, cwd, operation, path, path2), all non-trivial"
 	maxSeg := 4
 	if !e.Quick {
 		maxSeg = 6
@@ -108,6 +112,7 @@ func runC13(e *Env) {
 	c13Resolve(e, paths)
 	c13Mounts(e, paths)
 	c13MountSessions(e)
+	c13TwoPath(e, paths)
 	c13LocalFS(e, paths)
 }
 
